@@ -48,7 +48,17 @@ def run(ctx: Ctx) -> int:
                 if (p2["enc_cek"], p2["nonce"], p2["ct"]) == (p1["enc_cek"], p1["nonce"], p1["ct"]):
                     sealed = False
             except Exception:  # noqa
-                pass
+                try:      # not the strict template any more: compare the sealed octets as the decrypting side itself locates them
+                    from dpapi_ng._blob import DPAPINGBlob
+                    from ..blobref import read_tlv
+
+                    b2 = DPAPINGBlob.unpack(data)
+                    iv = read_tlv(read_tlv(bytes(b2.enc_content_parameters or b""), 0)[1], 0)[1] if b2.enc_content_parameters else b""
+                    p1 = tg.parsed
+                    if (bytes(b2.enc_cek), bytes(iv), bytes(b2.enc_content)) == (p1["enc_cek"], p1["nonce"], p1["ct"]):
+                        sealed = False
+                except Exception:  # noqa
+                    pass
         rows.append({"id": len(rows), "kind": "tamper", "layout": tg.layout, "mode": tg.mode, "hash": tg.h, "fields": fields, "kinds": kinds, "what": what,
                      "res": res, "exc": exc, "allowed": allowed, "sealed": sealed})
 
